@@ -242,7 +242,9 @@ Print Assumptions C01_full_is_refuted.
    request-target, urlsplit (as modelled) is defined and refuses exactly the targets that
    RFC 3986 (the reference's target_policy) refuses; it holds e.g. for every stream without
    '[' and ']' (C01_targets_ok_no_brackets).  C01_full_dev itself (no side condition) is
-   false of the model: C01_full_dev_is_refuted and the three witness lemmas. *)
+   false of the model: C01_full_dev_is_refuted and the witness lemmas (two classes are left: a zero body
+   limit, and bracketed hosts the urlsplit model does not cover; the third -- a control byte in the target --
+   was closed by the /repo fix that refuses control characters in the request-target). *)
 From WV Require Proof.SplitParser Proof.SplitChan.
 From WV Require Import Proof.C01ComposeLib Proof.C01ComposeHead Proof.C01ComposeBody Proof.C01Compose Proof.C01ComposeTop.
 
@@ -321,12 +323,11 @@ Theorem C01_full_dev_refuted_zero_body_limit :
 Proof. exact full_dev_refuted_zero_body_limit. Qed.
 Print Assumptions C01_full_dev_refuted_zero_body_limit.
 
-Theorem C01_full_dev_refuted_c0_target :
+Theorem C01_full_dev_c0_target_agree :
   observe (feed adj0 chan_init [c0_target_stream]) = Some [ORefuse 400] /\
-  exists m, map ref_view (ref_run_dev (cfg_of adj0) all_devs c0_target_stream)
-            = [ODeliver [71;69;84] m [49;46;49] [] [] false].
-Proof. exact full_dev_refuted_c0_target. Qed.
-Print Assumptions C01_full_dev_refuted_c0_target.
+  map ref_view (ref_run_dev (cfg_of adj0) all_devs c0_target_stream) = [ORefuse 400].
+Proof. exact full_dev_c0_target_agree. Qed.
+Print Assumptions C01_full_dev_c0_target_agree.
 
 Theorem C01_full_dev_unmodelled_bracket : feed adj0 chan_init [bracket_stream] = CUnmodelled.
 Proof. exact full_dev_unmodelled_bracket. Qed.
